@@ -856,9 +856,31 @@ rv = .false.
         name = wformat(
             node.options.F_abstract_interface_subprogram_template, fmt
         )
-        entry = fileinfo.f_abstract_interface.get(name)
-        if entry is None:
-            fileinfo.f_abstract_interface[name] = (node, fmt, arg)
+        # Callbacks of different signatures must not share one abstract
+        # interface (same method name in two classes, overloads).
+        # Keep the documented name for the first signature, add the
+        # scope, then the function suffixes, then a sequence number.
+        signature = arg.gen_decl()
+        candidates = [
+            name,
+            fmt.F_name_scope + name,
+            "{}{}{}{}_{}".format(
+                fmt.F_name_scope, fmt.underscore_name, fmt.function_suffix,
+                fmt.template_suffix, arg.name),
+        ]
+        i = 0
+        while True:
+            if i < len(candidates):
+                name = candidates[i]
+            else:
+                name = "{}_{}".format(candidates[-1], i - len(candidates))
+            i += 1
+            entry = fileinfo.f_abstract_interface.get(name)
+            if entry is None:
+                fileinfo.f_abstract_interface[name] = (node, fmt, arg)
+                break
+            if entry[2].gen_decl() == signature:
+                break
         return name
 
     def dump_abstract_interfaces(self, fileinfo):
